@@ -1130,6 +1130,67 @@ Proof.
   split; [exact Hi|now apply (cl_allh _ (g_clean _ _ _ G))].
 Qed.
 
+(* ---- a thread start that creates a new instance and fails ---------------------------------------------------- *)
+Lemma good_ext_cls sc cl s s' :
+  threads s' = threads s -> vms s' = vms s -> tpool s' = tpool s -> vpool s' = vpool s ->
+  cpool s' = cpool s -> chain s' = chain s -> elems s' = elems s -> cur s' = cur s -> (nextid s <= nextid s') ->
+  ftids (stack s') = ftids (stack s) -> ub s' = ub s -> oof s' = oof s ->
+  (forall x, In x (cpool s) -> clsof s' x = clsof s x) ->
+  Good sc cl s -> Good sc cl s'.
+Proof.
+  intros E1 E2 E4 E5 E6 E7 E8 E9 E10 E11 E12 E13 Ecl [G1 G2 G3 G4 G5 G6 G7].
+  assert (Eth : forall x, th s' x = th s x) by (intro x; unfold th; now rewrite E1).
+  assert (Evm : forall x, vmof s' x = vmof s x) by (intro x; unfold vmof; now rewrite E2).
+  assert (Hh : forall x, healthy s' x <-> healthy s x) by (intro x; unfold healthy; now rewrite E4, Eth).
+  pose proof G1 as G1'. dinv G1.
+  constructor.
+  - constructor; rewrite ?E4, ?E5, ?E6, ?E7, ?E8; try assumption.
+    + intros t Ht. apply Hh in Ht. destruct (Hthr t Ht) as (Q1 & Q2 & Q3). rewrite Evm. split; [exact Q1|]. split; [exact Q2|].
+      intros c Hc. destruct (Q3 c Hc) as [Q4 Q5]. split; [exact Q4|]. now rewrite Ecl.
+    + intros t c Ht. rewrite Evm. now apply Hcl.
+    + intros c Hc. rewrite Ecl by exact Hc. now apply Hclnd.
+    + intros c t Hc. rewrite Ecl, Evm by exact Hc. now apply Hclin.
+    + intros c t Ht. apply Hh in Ht. rewrite Evm. intro Hc. destruct (Hthr t Ht) as (_ & _ & Q3). destruct (Q3 c Hc) as [Q4 _].
+      rewrite Ecl by exact Q4. now apply Hclall.
+    + intros c Hc Hn. rewrite Ecl by exact Hc. now apply Hdying.
+    + intros e He. rewrite Eth. now apply Htm.
+    + intros p c Hp. apply Hh in Hp. rewrite !Eth. now apply Hwf.
+    + intros c p Hc. rewrite !Eth. now apply Hnf.
+    + intros v Hv. rewrite Evm. now apply Hzomb.
+    + intros x Hx. rewrite E9 in Hx. now apply Hcur.
+  - destruct G2 as [C1 C2 C3 C4]. constructor.
+    + intros x Hx. rewrite Eth. apply C1. now rewrite <- E4.
+    + intros x Hx. rewrite Evm. apply C2. now rewrite <- E4.
+    + intros c Hc. rewrite E7. apply C3. now rewrite <- E6.
+    + intros c Hc. rewrite E7 in Hc. rewrite Ecl by (now apply Hchin). now apply C4.
+  - intros x Hx. rewrite E4, E5, E6 in Hx. pose proof (G3 x Hx). lia.
+  - intros t Ht. rewrite Evm, E11. rewrite E4 in Ht. now apply G4.
+  - intros v Hv Hn. rewrite E11. rewrite E5 in Hv. rewrite E4 in Hn. now apply G5.
+  - congruence.
+  - congruence.
+Qed.
+
+Lemma good_failed_start sc cl s k :
+  Good sc cl s -> Good sc cl (let '(c, s1) := new_class k s in destroy_class (dfuel s1) c s1).
+Proof.
+  intro G. unfold new_class. set (c := nextid s).
+  set (s1 := set_chain (c :: chain _) (set_cpool (cpool _ ++ [c]) (set_classes (set (classes (set_nextid (c + 1) s)) c (mkC k [])) (set_nextid (c + 1) s)))).
+  assert (Hnc : ~ In c (cpool s)) by (intro Hx; pose proof (g_fresh _ _ _ G c (or_intror (or_intror Hx))); unfold c in *; lia).
+  assert (Hnch : ~ In c (chain s)) by (intro Hx; apply Hnc; now apply (d_chin _ _ _ (g_inv _ _ _ G))).
+  assert (Ef : dfuel s1 = S (pred (dfuel s1))) by reflexivity. rewrite Ef.
+  rewrite destroy_class_empty.
+  2:{ change (cpool s1) with (cpool s ++ [c]). apply in_or_app. right. now left. }
+  2:{ unfold clsof. change (classes s1) with (set (classes s) c (mkC k [])). now rewrite gss. }
+  eapply good_ext_cls; [..|exact G]; try reflexivity.
+  - rewrite cpool_destroy_empty. change (cpool s1) with (cpool s ++ [c]). rewrite remove_app, (remove_notin c (cpool s) Hnc).
+    unfold remove. cbn [filter]. rewrite N.eqb_refl. cbn [negb]. apply app_nil_r.
+  - rewrite chain_destroy_empty. change (chain s1) with (c :: chain s). unfold remove. cbn [filter]. rewrite N.eqb_refl. cbn [negb].
+    fold (remove c (chain s)). now apply remove_notin.
+  - change (nextid (destroy_empty c s1)) with (c + 1). unfold c. lia.
+  - intros x Hx. rewrite cls_destroy_empty. assert (x <> c) by (intros ->; tauto).
+    destruct (N.eqb_spec x c); [congruence|]. unfold clsof. change (classes s1) with (set (classes s) c (mkC k [])). now rewrite gso.
+Qed.
+
 (* ---- every step ------------------------------------------------------------------------------------------------ *)
 Lemma exec_instr_good sc cl s t i r p k :
   Good sc cl s -> stack s = FExec t p :: k -> healthy s t ->
@@ -1141,7 +1202,7 @@ Proof.
   set (s0 := set_top (FExec t r) s) in *.
   assert (Ht0 : healthy s0 t) by exact Ht.
   assert (Hfr0 : In t (ftids (stack s0))) by (unfold s0, set_top; prj; now left).
-  destruct i as [m|d|q|q| | |k'|  |k' d|k'|k'].
+  destruct i as [m|d|q|q| | |k'|  |k' d|k'|k'|gv gx|gv| ].
   - (* println *)
     exists sc, cl. eapply good_ext; [..|exact G0]; try reflexivity. intros x Hx. exact (d_cur _ _ _ (g_inv _ _ _ G0) x Hx).
   - (* wait *)
@@ -1169,6 +1230,9 @@ Proof.
   - exists sc, cl. destruct (deref k' s0) as [b|] eqn:Ed; [|exact G0]. apply good_wait_on; [exact G0|eapply deref_healthy; eauto].
   - exists sc, cl. destruct (deref k' s0) as [b|] eqn:Ed; [|exact G0]. apply good_wait_on; [exact G0|eapply deref_healthy; eauto].
   - exists sc, cl. destruct (deref k' s0) as [b|] eqn:Ed; [|exact G0]. apply good_pause_on; [exact G0|eapply deref_healthy; eauto].
+  - exists sc, cl. eapply good_ext; [..|exact G0]; try reflexivity. intros x Hx. exact (d_cur _ _ _ (g_inv _ _ _ G0) x Hx).
+  - exists sc, cl. eapply good_ext; [..|exact G0]; try reflexivity. intros x Hx. exact (d_cur _ _ _ (g_inv _ _ _ G0) x Hx).
+  - destruct (current_script s0) as [k'|]; [|discriminate]. exists sc, cl. now apply good_failed_start.
 Qed.
 
 Theorem step_good sc cl s :
